@@ -397,9 +397,11 @@ funcbits(struct func *f, struct type *t, struct value *v, struct bitfield b)
 
 	class = t->size <= 4 ? 'w' : 'l';
 	bits = b.after;
-	if (bits) {
+	if (bits || b.before) {
+		/* also discard what lies above a storage unit narrower than the class */
 		bits += (t->size + 3 & ~3) - t->size << 3;
-		v = funcinst(f, ISHL, class, v, mkintconst(bits));
+		if (bits)
+			v = funcinst(f, ISHL, class, v, mkintconst(bits));
 	}
 	bits += b.before;
 	if (bits)
